@@ -138,7 +138,7 @@ CLAIMS = {
   'category': 'proof',
   'technique': 'Lean 4 lemmas on the token-consuming primitives (expect, identifier) and whole-parser invariant that leaves are made from source tokens only + accounting oracle on every accepted file among valid programs, 1-3 token mutants, soup and exhaustive context streams',
   'text': 'Proved for every parser state: expect(k) succeeds only on a current token of kind k and returns its offset, fails on any other token or at end of input; the identifier leaf parser builds its leaf from the current token only. '
-          'Whole parser (Hoare logic, induction on fuel): every Ident, BasicLit and string-literal node is created from a token that the scanner produces from the source at that offset with that text - no leaf is invented (identifier_spec, literal_spec, stringLiteral_spec); carried to the returned tree for the package name (parseFile_pkg_real). '
+          'Whole parser (Hoare logic, induction on fuel): every Ident, BasicLit and string-literal node is created from a token that the scanner produces from the source at that offset with that text - no leaf is invented (identifier_spec, literal_spec, stringLiteral_spec); carried to the returned tree for the package name, every import path and name, and every top-level declared name - functions, methods, type specs, var and const spec names (parseFile_pkg_real, parseFile_imports_real, parseFile_decls_real). '
           'The whole-file statement is decided by execution: whenever the implementation accepts a file (generated valid programs, single- and multi-token deletions / insertions / duplications / swaps of them and of the corpus, token soup, all short token sequences in the file-level syntactic contexts), '
           'the identifier and literal leaves of its tree must equal the identifier and literal tokens of the crate\'s own scanner on that source (text, offset, each once), brackets must be balanced and the package clause / imports must come first. One violation found this way (`switch a b {}` dropped `a`) was repaired; the earlier `import "a" 42` defect is a fixed entry. Partial proof.',
   'note': 'That every token ends up as exactly one leaf (none dropped, brackets balanced, end of input reached) is not a theorem: it needs a recursive predicate over the 60 mutually recursive AST types in all 47 postconditions; the leaves oracle decides it.',
@@ -154,8 +154,9 @@ CLAIMS = {
  },
  'C12': {
   'category': 'proof',
-  'technique': 'Lean 4 proof that the line numbers the doc-comment grouping compares are true lines (sorted table) + generated declaration sequences with every comment placement at every line against the documentation oracle of DESIGN A.6',
+  'technique': 'Lean 4 proof that the line numbers the doc-comment grouping compares are true lines (sorted table) and whole-parser invariant that documentation is made of source comments + generated declaration sequences with every comment placement at every line against the documentation oracle of DESIGN A.6',
   'text': 'Proved: Scanner::line_of is the true 1-based line on every sorted table, monotone, and equal for two offsets exactly when no line start lies between them - so the three comparisons of Parser::next (new group after a gap, group dropped before a distant token, comment trailing the previous token) test what they say. '
+          'Whole parser (Hoare logic, induction on fuel): pending lead comments are only ever comment tokens of the source (invariant `lead`), so what drain_comments hands out is made of source comments (drainComments_spec), and in the returned tree the documentation of the file, of every top-level declaration and of every spec consists of comment tokens of the source (parseFile_docs_real, parseFile_decls_real). '
           'The attachment rule itself is decided by execution: generated sequences of package clause, func/var/const/type declarations, grouped specs and struct fields with, before each item, one of {none, attached group, multi-line general comment, detached group, trailing comment on the previous line, detached+attached}, items starting on any line including 1-3, comments inside the previous body; '
           'the documentation reported for each item (and the line-end comment of each struct field) must be the expected group. The two defects this exhibited on the original tree (trailing comment taken as doc; detached comment on lines 1-2 attached) were repaired by one fix: commit. Partial proof.',
   'note': 'The sortedness of the line table is an invariant of the scanner (append-only while scanning forward, truncated by goback) compared on every scan case, not yet a theorem.',
